@@ -37,7 +37,14 @@ func verifHandlerError() (error, *Error) {
 	code := Code(nondetInt32("code"))
 	var err error
 	var top *Error
-	switch nondetChoice("base", 9) {
+	switch nondetChoice("base", 12) {
+	case 9: // the sentinel is reachable only through a multi-error node
+		err = errors.Join(errors.New("cleanup failed"), context.Canceled)
+	case 10:
+		assume(code != NoError)
+		err = errors.Join(errors.New("first"), code.Err())
+	case 11:
+		err = fmt.Errorf("both: %w and %w", errors.New("plain"), &Error{Code: code, Message: "second of two"})
 	case 8:
 		err = verifCoderWrap{c: code, inner: &Error{Code: Code(nondetInt32("innercode")), Message: "inner"}}
 	case 0:
@@ -80,6 +87,21 @@ func verifHandlerError() (error, *Error) {
 func Harness_C14_chain() {
 	herr, top := verifHandlerError()
 	want := ErrorCode(herr)
+	// reference classification, from ErrorCode's documentation: the first
+	// ErrCoder anywhere in the chain (errors.As), else the context sentinels
+	// (errors.Is), else SystemError
+	var coder ErrCoder
+	hasCoder := errors.As(herr, &coder)
+	switch {
+	case hasCoder:
+		vassert(want == coder.ErrCode(), "C14: ErrorCode reports the code of the ErrCoder in the chain")
+	case errors.Is(herr, context.Canceled):
+		vassert(want == Cancelled, "C14: a (wrapped) context.Canceled classifies as Cancelled")
+	case errors.Is(herr, context.DeadlineExceeded):
+		vassert(want == DeadlineExceeded, "C14: a (wrapped) context.DeadlineExceeded classifies as DeadlineExceeded")
+	default:
+		vassert(want == SystemError, "C14: anything else is a SystemError")
+	}
 	// a custom ErrCoder that reports NoError for a non-nil error is excluded
 	// (the property's last sentence exempts NoError)
 	assume(want != NoError)
